@@ -662,8 +662,51 @@ func (oi *onceInfo) regionNames() string {
 // onces finds every sync.Once (a field of a package-level variable, identified
 // by variable and field path), the functions run under it and the part of the
 // variable those functions write (the state it protects).
+type holderDo struct {
+	f   *ssa.Function // the holder method containing the Do call
+	loc Loc           // the Once, relative to a parameter of f
+	lit *ssa.Function
+}
+
 func (a *Analysis) onces() map[onceKey]*onceInfo {
 	out := map[onceKey]*onceInfo{}
+	var holders []holderDo
+	defer func() {
+		// resolve holder methods at their call sites: the call stands for the Do call
+		for _, h := range holders {
+			for _, g := range a.P.Funcs {
+				gi := a.Info[g]
+				if gi == nil {
+					continue
+				}
+				for _, b := range g.Blocks {
+					for _, in := range b.Instrs {
+						c2, ok := in.(*ssa.Call)
+						if !ok {
+							continue
+						}
+						if callee, _ := load.StaticCallee(c2); callee != h.f {
+							continue
+						}
+						locs := gi.Translate(c2, h.loc)
+						if len(locs) != 1 || locs[0].Root.Kind != KGlobal {
+							a.problem(g, in, "sync.Once of a holder object that is not a field of one package-level variable")
+							continue
+						}
+						k := onceKey{locs[0].Root.Global, locs[0].Path}
+						oi := out[k]
+						if oi == nil {
+							oi = &onceInfo{g: k.g, lits: map[*ssa.Function]bool{}, doCalls: map[*ssa.Function][]*ssa.Call{}, oncePath: k.path, region: map[*ssa.Global][]Path{}}
+							out[k] = oi
+						}
+						oi.lits[h.lit] = true
+						oi.doCalls[g] = append(oi.doCalls[g], c2)
+					}
+				}
+			}
+		}
+		a.onceRegions(out)
+	}()
 	for _, f := range a.P.Funcs {
 		fi := a.Info[f]
 		for _, b := range f.Blocks {
@@ -677,6 +720,12 @@ func (a *Analysis) onces() map[onceKey]*onceInfo {
 					continue
 				}
 				pvs := fi.operand(c.Common().Args[0])
+				if len(pvs) == 1 && pvs[0].Loc.Root.Kind == KParam && lit != nil {
+					// a method of a holder type (`func (h *tableOnce) get() { h.once.Do(h.build); … }`): which Once this
+					// is is decided at the call sites of the method, below
+					holders = append(holders, holderDo{f: f, loc: pvs[0].Loc, lit: lit})
+					continue
+				}
 				if len(pvs) != 1 || pvs[0].Loc.Root.Kind != KGlobal || lit == nil {
 					a.problem(f, in, "sync.Once.Do on something other than a field of one package-level variable with a function literal or method value")
 					continue
@@ -692,6 +741,10 @@ func (a *Analysis) onces() map[onceKey]*onceInfo {
 			}
 		}
 	}
+	return out
+}
+
+func (a *Analysis) onceRegions(out map[onceKey]*onceInfo) {
 	// protected regions: what the functions run under the Once write inside its variable
 	for _, oi := range out {
 		seen := map[Loc]bool{}
@@ -724,7 +777,6 @@ func (a *Analysis) onces() map[onceKey]*onceInfo {
 			sort.Slice(ps, func(i, j int) bool { return ps[i] < ps[j] })
 		}
 	}
-	return out
 }
 
 // directCallers: functions with a direct static call of f (not through sync.Once.Do).
